@@ -344,6 +344,8 @@ pub struct RefRun {
     pub reads: u64,
     pub max_call_depth: usize,
     pub says: u64,
+    /// input offset after each `listen` (how much each one consumed)
+    pub read_offsets: Vec<usize>,
     /// (operator, kind of left, kind of right) cells the run evaluated
     pub cells: std::collections::BTreeSet<(BinOp, Kind, Kind)>,
 }
@@ -424,6 +426,7 @@ pub struct Interp<'i> {
     stats: BTreeMap<&'static str, u64>,
     reads: u64,
     says: u64,
+    read_offsets: Vec<usize>,
     max_call_depth: usize,
     ret: Option<V>,
     cells: std::collections::BTreeSet<(BinOp, Kind, Kind)>,
@@ -434,6 +437,11 @@ pub struct Interp<'i> {
 }
 
 pub fn run(p: &Program, input: &[u8], budget: &Budget) -> RefRun {
+    run_full(p, input, budget).0
+}
+
+/// like `run`, also returning the variables of the global scope at the end (key, value)
+pub fn run_full(p: &Program, input: &[u8], budget: &Budget) -> (RefRun, Vec<(String, V)>) {
     let mut it = Interp {
         scopes: vec![BTreeMap::new()],
         frames: Vec::new(),
@@ -447,6 +455,7 @@ pub fn run(p: &Program, input: &[u8], budget: &Budget) -> RefRun {
         stats: BTreeMap::new(),
         reads: 0,
         says: 0,
+        read_offsets: Vec::new(),
         max_call_depth: 0,
         ret: None,
         cells: Default::default(),
@@ -476,7 +485,14 @@ pub fn run(p: &Program, input: &[u8], budget: &Budget) -> RefRun {
             }
         }
     }
-    RefRun {
+    let globals: Vec<(String, V)> = it.scopes[0]
+        .iter()
+        .filter_map(|(k, e)| match e {
+            Entry::Var(v) => Some((k.clone(), v.clone())),
+            Entry::Func(_) => None,
+        })
+        .collect();
+    (RefRun {
         out: it.out,
         outcome,
         steps: it.steps,
@@ -485,8 +501,9 @@ pub fn run(p: &Program, input: &[u8], budget: &Budget) -> RefRun {
         reads: it.reads,
         max_call_depth: it.max_call_depth,
         says: it.says,
+        read_offsets: it.read_offsets,
         cells: it.cells,
-    }
+    }, globals)
 }
 
 fn has_side_effects_prim(p: &Prim) -> bool {
@@ -1138,6 +1155,7 @@ impl<'i> Interp<'i> {
         };
         let line = &rest[..n];
         self.in_pos += n;
+        self.read_offsets.push(self.in_pos);
         let mut s = match std::str::from_utf8(line) {
             Ok(s) => s.to_string(),
             Err(_) => return err("io_error"),
